@@ -220,13 +220,17 @@ Inductive mpc :=
 | MLoaded (early : bool) (cur : Z) (* Pinned: passed the check, next Add(1).  Current: next CompareAndSwap(cur, cur+1) *)
 | MActive (early : bool)           (* holds a slot; setting the tunnel up (PrepareConnection, DialTunnel, RegisterTunnel) *)
 | MLive                            (* tunnel started, handleConnection has returned *)
+| MClosing                         (* Tunnel.Close has begun (closed from outside the copy loop); localConn.Close() has not returned:
+                                      the connection is still OPEN *)
 | MEarlyClosed                     (* Tunnel.Close ran OnClosed before Start; next: Start fails, deferred cleanup runs *)
 | MDone                            (* tunnel closed / connection given up *)
 | MRefused.
 Record msh := { counter : Z; live : Z }.
 
 (* once = the slot release is wrapped in a sync.Once (the code); once = false is the non-idempotent variant (refuted) *)
-Definition mstep_gen (once : bool) (v : variant) (max : nat) (pc : mpc) (sh : msh) : mpc * msh :=
+(* close_first = Tunnel.Close closes localConn / tunnelRWC BEFORE it unregisters and runs OnClosed (the code): the slot is
+   returned only once the connection is closed; close_first = false returns the slot first (refuted) *)
+Definition mstep_gen (once close_first : bool) (v : variant) (max : nat) (pc : mpc) (sh : msh) : mpc * msh :=
   let bump d l := {| counter := counter sh + d; live := live sh + l |}%Z in
   match pc with
   | MStart e =>
@@ -254,16 +258,21 @@ Definition mstep_gen (once : bool) (v : variant) (max : nat) (pc : mpc) (sh : ms
       | Pinned => (MDone, bump (-1) 0)%Z
       | Current => if once then (MDone, sh) else (MDone, bump (-1) 0)%Z
       end
-  | MLive =>
+  | MLive =>                                    (* Tunnel.Close begins; `live` counts OPEN connections *)
+      match v with
+      | Pinned => (MClosing, sh)
+      | Current => if close_first then (MClosing, sh) else (MClosing, bump (-1) 0)%Z   (* OnClosed before the conns are closed *)
+      end
+  | MClosing =>                                 (* localConn.Close() returns *)
       match v with
       | Pinned => (MDone, bump 0 (-1))%Z
-      | Current => (MDone, bump (-1) (-1))%Z    (* OnClosed releases the slot *)
+      | Current => if close_first then (MDone, bump (-1) (-1))%Z else (MDone, bump 0 (-1))%Z   (* ... then OnClosed releases the slot *)
       end
   | MDone | MRefused => (pc, sh)
   end.
-Definition mstep := mstep_gen true.
-Definition m_holds (pc : mpc) : bool := match pc with MActive _ | MLive => true | _ => false end.
-Definition m_live (pc : mpc) : bool := match pc with MLive => true | _ => false end.
+Definition mstep := mstep_gen true true.
+Definition m_holds (pc : mpc) : bool := match pc with MActive _ | MLive | MClosing => true | _ => false end.
+Definition m_live (pc : mpc) : bool := match pc with MLive | MClosing => true | _ => false end.
 Definition mrun v max (sh : msh) (ts : list mpc) (sched : list nat) := run _ _ (mstep v max) (sh, ts) sched.
 
 (* 3b. the slot seen as events: one holder = one handleConnection call; its script is ANY sequence of
@@ -445,3 +454,25 @@ Definition istep (ord : iorder) (pc : ipc) (sh : ish) : ipc * ish :=
 Definition irun ord (sh : ish) (ts : list ipc) (sched : list nat) := run _ _ (istep ord) (sh, ts) sched.
 (* the count the quota compares with its limit: index entries whose record exists *)
 Definition i_counted (sh : ish) : nat := length (filter (fun k => imem k (i_stored sh)) (i_index sh)).
+
+(* ------------------------------------------------------------------------------------------------
+   8. "active" codes and the claim marker.  A code is ACTIVE while it is valid for activation (not used, not revoked, not
+      expired) — also while an activation of it holds the CLAIM marker and has not yet written the "used" state (the claim
+      can still be given back).  Creation runs under the `codes` marker (creates of one client are serialised: one step here,
+      see section 6), activation under the `mappings` marker of another client: the two are NOT serialised.
+      count_claimed = CountActiveByTargetClient counts claimed codes (the code); false = skips them (refuted). *)
+Inductive kpc := KCreate | KCreated | KRefusedK | KActivate | KClaimed | KUsed | KIdle.
+Record ksh := { k_active : nat; k_claimed : nat }.
+Definition kstep (count_claimed : bool) (max : nat) (pc : kpc) (sh : ksh) : kpc * ksh :=
+  match pc with
+  | KCreate =>
+      let seen := if count_claimed then k_active sh else k_active sh - k_claimed sh in
+      if max <=? seen then (KRefusedK, sh) else (KCreated, {| k_active := S (k_active sh); k_claimed := k_claimed sh |})
+  | KActivate =>                                   (* Claim (SetNX) of an unclaimed active code of the client *)
+      if k_claimed sh <? k_active sh then (KClaimed, {| k_active := k_active sh; k_claimed := S (k_claimed sh) |}) else (KIdle, sh)
+  | KClaimed =>                                    (* mapping created, code written back as used: no longer active *)
+      (KUsed, {| k_active := pred (k_active sh); k_claimed := pred (k_claimed sh) |})
+  | KCreated | KRefusedK | KUsed | KIdle => (pc, sh)
+  end.
+Definition k_is_claimed (pc : kpc) : bool := match pc with KClaimed => true | _ => false end.
+Definition krun cc max (sh : ksh) (ts : list kpc) (sched : list nat) := run _ _ (kstep cc max) (sh, ts) sched.
